@@ -49,6 +49,7 @@ struct Slot {
 	int midx = -1;
 	bool fin_requested = false, fin_ran = false, free_fin = false;
 	int fin_count = 0;
+	int fin_chain = -1;	// slot whose event this slot's finalizer releases (event_free_finalize) when it runs during event_base_free
 	std::deque<Op> incb;
 };
 struct WSlot {
@@ -212,7 +213,22 @@ static void fin_cb(struct event *ev, void *arg) {
 	sl.fin_count++;
 	if (sl.fin_count > 1) { violation("C10.finalizer-twice", "slot %d finalizer ran %d times", s, sl.fin_count); return; }
 	sl.fin_ran = true;
-	if (R->teardown) { tr("cb finalizer slot %d (teardown)", s); if (sl.free_fin) sl.ev = nullptr; return; }
+	if (R->teardown) {
+		tr("cb finalizer slot %d (teardown)", s);
+		if (sl.free_fin) sl.ev = nullptr;
+		// a finalizer that releases another object (as a filter bufferevent's finalizer releases the one below it)
+		if (sl.fin_chain >= 0 && sl.fin_chain != s) {
+			Slot &t = R->slots[sl.fin_chain];
+			if (t.ev && !t.fin_requested) {
+				tr("api finalize ev%d free=1 from the finalizer of slot %d", sl.fin_chain, s);
+				t.fin_requested = true;
+				t.free_fin = true;
+				probe("finalizer-registered-from-finalizer-during-base-free");
+				if (event_free_finalize(0, t.ev, fin_cb) != 0) violation("C10.finalize-result", "event_free_finalize from inside a finalizer returned an error");
+			}
+		}
+		return;
+	}
 	observe_cb(evm::QE{0, sl.midx, 0}, EV_FINALIZE, &sl.incb);
 	if (sl.free_fin) sl.ev = nullptr;
 }
@@ -567,6 +583,7 @@ static void exec_op(const Op &op, bool incb) {
 		m.finalize(sl.midx, fr);
 		sl.fin_requested = true;
 		sl.free_fin = fr;
+		sl.fin_chain = op.a[2] > 0 ? (int)((op.a[2] - 1) % R->nslot) : -1;
 		probe("finalize");
 		if (!fr) check_slot(s, "event_finalize");
 		break;
@@ -875,6 +892,9 @@ static void execute(const Plan &p) {
 		Slot &sl = run.slots[s];
 		if (!sl.ev) continue;
 		if (sl.fin_requested && !sl.fin_ran) { fin_pending++; continue; }
+		bool chained = false;	// left alive for the pending finalizer that will release it from inside event_base_free
+		for (int q = 0; q < run.nslot; q++) if (q != s && run.slots[q].ev && run.slots[q].fin_requested && !run.slots[q].fin_ran && run.slots[q].fin_chain == s) chained = true;
+		if (chained && !sl.fin_requested) continue;
 		APIV(event_free(sl.ev));
 		sl.ev = nullptr;
 	}
@@ -1028,7 +1048,7 @@ static void generate(Plan &p, Rng &r) {
 		case OP_ACTIVE_LATER: o.a[0] = r.below(nslot); o.a[1] = r.range(1, 7); break;
 		case OP_REMOVE_TIMER: case OP_FREE: case OP_PENDING: o.a[0] = r.below(nslot); break;
 		case OP_PRIO: o.a[0] = r.below(nslot); o.a[1] = r.below(10); break;
-		case OP_FINALIZE: o.a[0] = r.below(nslot); o.a[1] = r.below(2); break;
+		case OP_FINALIZE: o.a[0] = r.below(nslot); o.a[1] = r.below(2); o.a[2] = (prop == "C10" && r.chance(0.5)) ? 1 + r.below(nslot) : 0; break;
 		case OP_ONCE: o.a[0] = r.below(2); o.a[1] = r.below(MAXFD); o.a[2] = gen_dur(r) % 10000000; o.a[3] = r.below(4); break;
 		case OP_FD_WRITE: o.a[0] = r.below(MAXFD); o.a[1] = r.below(8); break;
 		case OP_FD_DRAIN: o.a[0] = r.below(MAXFD); break;
